@@ -186,3 +186,4 @@ def check(ctx):
     c10.check_exceptions(ctx, la)
     c04.check_group_ack(ctx)   # an acknowledged follower is part of the logged group
     c04.check_write(ctx)       # publication of the sequence number after the insert (linearization point of a write)
+    _c01.check_compaction_drop(ctx)   # a background compaction never changes what the head reads (an acknowledged delete stays deleted)
